@@ -1,4 +1,5 @@
-"""C09 far-away parts and early exits (partly decided: each shortcut fires only under its geometric precondition)."""
+"""C09 far-away parts and early exits (partly decided: each shortcut fires only under its geometric precondition, and the
+bounding-box shortcut returns what the sweep would return for operands that cannot interact: the trivial-result table)."""
 from rules import oprules, sweeprules, fillrules
 
 LEVEL = 'other'
@@ -11,4 +12,5 @@ def run(ctx, rep):
     oprules.check_box_test(ctx, rep)
     oprules.check_initial_boxes(ctx, rep)
     oprules.check_pipeline(ctx, rep)
+    oprules.check_trivial(ctx, rep)
     sweeprules.check_break(ctx, rep)
